@@ -144,6 +144,8 @@ class Check:
                 new_keys.append(key)
         replay_dir = VERIF / "replay"
         replay_dir.mkdir(exist_ok=True)
+        for old in replay_dir.glob(f"{self.pid}-*.json"):
+            old.unlink()
         for i, key in enumerate(new_keys):
             group = by_key[key]
             path = replay_dir / f"{self.pid}-{i + 1}.json"
